@@ -399,23 +399,63 @@ func c16cd(c *Ctx, v *variants.Variant) {
 	r.Check(okH, "C16-c", "T.parse:budget-panic-becomes-error", vn, "builder/static_code.go", "recover handler records an error-typed panic value and returns the list", "no recover handler recording error-typed panic values")
 	np := v.Func("", "newParser")
 	okD := false
+	var npBad []string
+	npSets := 0
 	if np != nil {
-		ast.Inspect(np.Body, func(n ast.Node) bool {
-			if is, ok := n.(*ast.IfStmt); ok && nospace(is.Cond) == "p.maxExprCnt==0" && len(is.Body.List) == 1 {
-				if as, ok := is.Body.List[0].(*ast.AssignStmt); ok && nospace(as.Lhs[0]) == "p.maxExprCnt" && nospace(as.Rhs[0]) == "math.MaxUint64" {
-					okD = true
+		// on the normalised paths of newParser (helpers expanded): the budget field is stored into only as
+		// `= math.MaxUint64` under the fact that it is zero, or left as it is; and the zero case always gets that store
+		paths := c.vnorm(v).normPaths(np)
+		sawZero, allDecided := false, len(paths) > 0
+		for _, p := range paths {
+			zero, nonzero, setMax := false, false, false
+			for i, e := range p {
+				if e.Kind != "set" {
+					continue
+				}
+				eq := strings.Index(e.Text, "=")
+				if eq < 0 || !strings.HasSuffix(e.Text[:eq], ".maxExprCnt") || strings.Contains(e.Text[:eq], "(") {
+					continue
+				}
+				lhs, rhs := e.Text[:eq], e.Text[eq+1:]
+				npSets++
+				switch {
+				case rhs == lhs:
+				case rhs == "math.MaxUint64" && p[:i].holds(lhs+"==0"):
+					setMax = true
+				default:
+					npBad = append(npBad, v.Where(np.Pos())+": newParser stores "+e.Text+" under ["+abbreviate(strings.Join(p[:i].facts(), " "))+"]")
 				}
 			}
-			return true
-		})
+			for _, f := range p.facts() {
+				if strings.HasSuffix(f, ".maxExprCnt==0") {
+					zero = true
+				}
+				if strings.HasSuffix(f, ".maxExprCnt!=0") || strings.HasSuffix(f, ".maxExprCnt>0") {
+					nonzero = true
+				}
+			}
+			if zero {
+				sawZero = true
+				if !setMax {
+					allDecided = false
+				}
+			} else if !nonzero {
+				allDecided = false
+			}
+		}
+		okD = sawZero && allDecided
 	}
 	r.Check(okD, "C16-d", "T.newParser:zero-means-unlimited", vn, "builder/static_code.go", "0 => math.MaxUint64", "the zero budget is not mapped to unlimited")
 	// the budget is the number the caller gave: besides that defaulting, only the MaxExpressions option stores to it,
 	// and it stores its argument (no arithmetic on the limit: n + something can wrap around)
 	var bad []string
 	nW := 0
+	bad = append(bad, npBad...)
+	if npSets > 0 {
+		nW++
+	}
 	for _, fd := range v.Funcs() {
-		if fd.Body == nil {
+		if fd.Body == nil || fd.Name.Name == "newParser" {
 			continue
 		}
 		ast.Inspect(fd.Body, func(n ast.Node) bool {
@@ -432,7 +472,6 @@ func c16cd(c *Ctx, v *variants.Variant) {
 					}
 					gs := strings.Join(guardsOf(fd.Body, x.Pos()), ";")
 					switch {
-					case x.Tok == token.ASSIGN && fd.Name.Name == "newParser" && rhs == "math.MaxUint64" && gs == "p.maxExprCnt==0":
 					case x.Tok == token.ASSIGN && fd.Name.Name == "MaxExpressions" && !strings.ContainsAny(rhs, "+-*/%") && gs == "":
 					default:
 						bad = append(bad, v.Where(x.Pos())+": "+fd.Name.Name+" stores p.maxExprCnt "+x.Tok.String()+" "+rhs+" under ["+gs+"]")
